@@ -14,3 +14,4 @@ def run(ck):
     region.r_equality_sides(ck, P, 'C07-R7')
     region.r7_8_range_test_siblings(ck, P)
     region.r7_9_word_skip_depends_on_run_state(ck, P)
+    region.r7_10_axis_symmetry(ck, P)
